@@ -233,6 +233,8 @@ fn sieve_a(s: &SieveSIQS, a_int: &Uint, factors: &Factors) {
                 let rels = s.rels.read().unwrap();
                 rels.gap(s.fbase)
             };
+            #[cfg(yamaquasi_verif)]
+            crate::verif_sched::yield_point(if rgap != 0 { 21 } else { 22 });
             s.gap.store(rgap, Ordering::Relaxed);
             if rgap == 0 {
                 if s.prefs.verbose(Verbosity::Info) {
